@@ -37,7 +37,9 @@ SRC = os.path.join(os.path.realpath(common.REPO), 'fiddle', '_src') + os.sep
 PROGS = ('build', 'nested', 'fail', 'edit', 'sig', 'copy')
 KEY_FILES = {'building.py', 'history.py', 'signatures.py', 'reraised_exception.py'}
 # files whose lines are scheduling points: None = every file of fiddle/_src (thorough tier)
-WATCH = KEY_FILES if common.tier() == 'quick' else None
+# (thorough: the key files plus the modules the programs spend their time in; every file of fiddle/_src
+# multiplies the number of steps per schedule by ten and did not finish in half an hour)
+WATCH = KEY_FILES if common.tier() == 'quick' else KEY_FILES | {'config.py', 'daglish.py', 'partial.py', 'tagging.py'}
 
 
 def _build_guard_holder():
@@ -424,17 +426,16 @@ def main():
       files = rec.get('step_files', [])
       keypts = [s_ for s_ in range(1, steps) if s_ < len(files) and files[s_] in key]
       other = [s_ for s_ in range(1, steps) if s_ not in set(keypts)]
-      if quick and len(other) > 6:
-        other = rng.sample(other, 6)
-      if quick and len(keypts) > 40:
-        keypts = rng.sample(keypts, 40)
+      if len(other) > (6 if quick else 20):
+        other = rng.sample(other, 6 if quick else 20)
+      if len(keypts) > (40 if quick else 120):
+        keypts = rng.sample(keypts, 40 if quick else 120)
       pts = sorted(set(keypts) | set(other))
       for s_ in pts:
         jobs.append((tuple(rec['names']), 'preempt', [[s_, 1]]))
         if not quick:
-          for s2 in rng.sample(range(s_ + 1, steps + 40), 2):
-            jobs.append((tuple(rec['names']), 'preempt', [[s_, 1], [s2, 0]]))
-      for k in range(2 if quick else 20):
+          jobs.append((tuple(rec['names']), 'preempt', [[s_, 1], [rng.randrange(s_ + 1, steps + 40), 0]]))
+      for k in range(2 if quick else 8):
         jobs.append((tuple(rec['names']), 'random', rng.randrange(1 << 30)))
       # two preemptions (thread 0 stops inside a section, thread 1 runs into its own section, thread 0
       # resumes): needed for state that is saved and restored around a section.  Exhaustive over the lines
@@ -448,12 +449,12 @@ def main():
         k0 = [s_ for s_ in range(1, n0) if s_ < len(files) and files[s_] == f]
         k1 = [s_ - n0 for s_ in range(n0, steps) if s_ < len(files) and files[s_] == f]
         combos = [(x, y) for x in k0 for y in k1 if y > 0]
-        cap = 1200 if (a, b) == ('edit', 'edit') else (80 if quick else 1500)
+        cap = 1200 if (a, b) == ('edit', 'edit') else (80 if quick else 400)
         if len(combos) > cap:
           combos = rng.sample(combos, cap)
         for x, y in combos:
           jobs.append((tuple(rec['names']), 'preempt', [[x, 1], [x + y, 0]]))
-    triples = [tuple(rng.choice(PROGS) for _ in range(3)) for _ in range(12 if quick else 200)]
+    triples = [tuple(rng.choice(PROGS) for _ in range(3)) for _ in range(12 if quick else 80)]
     for t in triples:
       for k in range(2):
         jobs.append((t, 'random', rng.randrange(1 << 30)))
@@ -488,10 +489,10 @@ def main():
   v.sample({'programs': recs[-1]['names'], 'schedule': recs[-1]['schedule'],
             'threads': recs[-1]['threads']})
   v.assumptions += [
-      'preemption happens at source-line granularity (sys.settrace line events; quick tier: the four files holding module-level state -- building, history, signatures, reraised_exception; thorough tier: every file of fiddle/_src) and at the '
+      'preemption happens at source-line granularity (sys.settrace line events; quick tier: the four files holding module-level state -- building, history, signatures, reraised_exception; thorough tier: those plus config, daglish, partial, tagging) and at the '
       'explicit pauses of the slow callables; bytecode-granular preemption inside one line (e.g. '
       'next(_set_counter), dict operations: atomic under the GIL) is assumed',
-      'quick tier samples at most 24 single preemption points per program pair',
+      'single preemption points per program pair are sampled (quick: at most 46, thorough: at most 140)',
   ]
   return v.finish()
 
